@@ -266,7 +266,7 @@ Inductive rop :=
 | ROpTruncate (idx : option Z)
 | ROpSetMode (m : mode)
 | ROpReopen (m : mode)
-| ROpMetaSet | ROpMetaClear.
+| ROpMetaSet | ROpMetaClear | ROpMetaPop.
 
 Definition rworld := (rhandle * rdir)%type.
 
@@ -283,6 +283,10 @@ Definition rexec (w : rworld) (o : rop) : ropres :=
   | ROpMetaClear => if r_meta d then
                       match rh_mode h with R => (Err OSError, h, []) | RW => (Ok tt, h, [RUnlinkMeta]) end
                     else (Ok tt, h, [])
+  | ROpMetaPop => match rh_mode h with
+                  | R => (Err OSError, h, [])
+                  | RW => if r_meta d then (Ok tt, h, [RUnlinkMeta]) else (Err KeyError, h, [])
+                  end
   end.
 
 Definition rstep (w : rworld) (o : rop) : res unit * rworld :=
